@@ -298,7 +298,8 @@ def sk_faults(tier):
 
 @unit(
     "tables.data_faults.bounded",
-    props=["C12", "C13"],
+    props=["C12", "C13", "C11"],
+    only_clauses={"C11": ["*entries_come_from_the_rows_carrying_their_labels"]},
     targets=[
         "flodym.flodym_arrays.FlodymArray.from_df",
         "flodym.flodym_arrays.FlodymArray.set_values_from_df",
@@ -336,6 +337,14 @@ def u_faults(W, sk):
         d0 = rng.choice([d for d in dims.dim_list if len(d.items) > 1])
     W.inputs["fault_dimension"] = d0.name
     unknown = 1999 if d0.dtype is int else "Atlantis"
+    if d0.dtype is not int and all(isinstance(it, str) for it in d0.items):
+        # an unknown item may look like a known one: a known item with something appended, or cut short
+        longest = max(d0.items, key=len)
+        cand = {"Atlantis": "Atlantis", "extended": longest + "27", "cut_short": longest[:-1], "other_case": longest.swapcase(), "padded": longest + " "}
+        kind_ = rng.choice(list(cand))
+        if cand[kind_] and cand[kind_] not in d0.items:
+            unknown = cand[kind_]
+            W.inputs["unknown_item"] = unknown
     i = rng.randrange(n)
 
     def label_index(row):
@@ -414,6 +423,35 @@ def u_faults(W, sk):
             import shutil
 
             shutil.rmtree(d_, ignore_errors=True)
+    if out.kind == "return" and fault not in ("column_missing", "two_value_columns"):
+        # whatever the flags: a returned array holds, at every entry, the value of the one row of the given table that
+        # carries that entry's labels (zero where there is no such row or its value is blank)
+        cols = {dm.name: (dm.name if dm.name in df0.columns else dm.letter) for dm in dims.dim_list}
+
+        def carries(v, item):
+            # (the importer converts a label column to the item type of its dimension before comparing)
+            try:
+                return type(item)(v) == item
+            except (TypeError, ValueError):
+                return False
+
+        ok, bad = True, None
+        for idx in np.ndindex(*dims.shape):
+            m = np.ones(len(df0), dtype=bool)
+            for dm, i_ in zip(dims.dim_list, idx):
+                m &= np.array([carries(v, dm.items[i_]) for v in df0[cols[dm.name]].tolist()], dtype=bool)
+            vals_ = df0["value"].to_numpy()[m]
+            if len(vals_) == 0:
+                w_ = 0.0
+            elif len(vals_) == 1:
+                w_ = 0.0 if np.isnan(vals_[0]) else float(vals_[0])
+            else:
+                ok, bad = False, (idx, "several rows carry these labels")
+                break
+            if not abs(float(got[idx]) - w_) <= 1e-12:
+                ok, bad = False, (idx, float(got[idx]), w_)
+                break
+        W.prove(f"fault[{fault}].returned_entries_come_from_the_rows_carrying_their_labels", ok, detail=f"entry {bad}")
     if expect_error:
         W.prove(f"fault[{fault}].refused", out.kind == "raise" and isinstance(out.exc, Exception), detail=f"{out!r} flags missing={am} extra={ae}")
     else:
